@@ -28,6 +28,7 @@ type winfo = {
   mutable issued : (bool * int) list;    (* (staking form, sh) this wallet handed out or materialised on import *)
   mutable prepaid : (int, unit) Hashtbl.t;   (* sh already paid on the node's chain when issued here *)
   mutable lost : (bool * int, unit) Hashtbl.t; (* (form, sh): a block paying it was disconnected from this wallet's chain *)
+  mutable impl_keys : int list;          (* script hashes of the keystore as last observed on the implementation *)
 }
 
 let () =
@@ -105,7 +106,7 @@ let () =
         Hashtbl.replace fam_tbl (ios fam, br = "1", ios idx) (ios sh);
         Hashtbl.replace sh_tbl (ios sh) (ios fam, br = "1", ios idx)
     | ["W"; w; fam] ->
-        Hashtbl.replace wallets (ios w) { fam = ios fam; st = wal_empty; live = true; restored = false; fresh_restore = false; int_hint = 0;
+        Hashtbl.replace wallets (ios w) { fam = ios fam; st = wal_empty; live = true; restored = false; fresh_restore = false; int_hint = 0; impl_keys = [];
                                           issued = []; prepaid = Hashtbl.create 8; lost = Hashtbl.create 8 }
     | ["A"; _; _] -> ()
     | ["B"; bid; prev; h; _] -> cur_b := Some (ios bid, ios prev, h)
@@ -171,9 +172,8 @@ let () =
         let impl_p = if impl = "ok" then "ok" else "err" in
         (match r with
          | Some st ->
-             let issued = List.map (fun (br, i) -> (false, int_of_n (sf br i))) st.w_ks.ks_pubs in
              if impl = "ok" then
-               Hashtbl.replace wallets (ios w) { fam; st; live = true; restored = true; fresh_restore = true; int_hint = ios hi; issued;
+               Hashtbl.replace wallets (ios w) { fam; st; live = true; restored = true; fresh_restore = true; int_hint = ios hi; issued = []; impl_keys = [];
                                                  prepaid = Hashtbl.create 8; lost = Hashtbl.create 8 };
              Printf.printf "RX\t%s\t%d\t%s\t%s\tok\t%s\n" !hist !k w impl_p mode
          | None -> Printf.printf "RX\t%s\t%d\t%s\t%s\tnofuel\t%s\n" !hist !k w impl_p mode)
@@ -192,9 +192,12 @@ let () =
         Printf.printf "KS\t%s\t%d\t%s\t%s\t%s\n" !hist !k w (impl ^ impl_ext) model;
         let cur = (try Hashtbl.find fam_max wi.fam with Not_found -> 0) in
         (* discovery predicate, on the implementation's keystore *)
+        let impl_shs = (match rest with _ :: _ :: _ :: l -> List.map ios l | _ -> []) in
+        wi.impl_keys <- impl_shs;
         if wi.fresh_restore then begin
           wi.fresh_restore <- false;
-          let impl_shs = (match rest with _ :: _ :: _ :: l -> List.map ios l | _ -> []) in
+          (* an import lists every materialised address as a standard address *)
+          wi.issued <- List.map (fun sh -> (false, sh)) impl_shs;
           let missing = ref [] in
           for i = cur - 1 downto 0 do
             let sh = int_of_n (sf false (n_of_int i)) in
@@ -210,9 +213,7 @@ let () =
     | ["BAL"; w; total] ->
         incr k;
         let wi = w_of w in
-        let sf = shf wi.fam in
-        let mine = mine_of sf wi.st.w_ks in
-        let own sh = if mine sh then Some (n_of_int (ios w)) else None in
+        let own sh = if List.mem (int_of_n sh) wi.impl_keys then Some (n_of_int (ios w)) else None in
         Printf.printf "BAL\t%s\t%d\t%s\t%s\t%s\n" !hist !k w total (string_of_z (balance_of_chain own !node (n_of_int (ios w))))
     | "L" :: w :: filter :: rest ->
         incr k;
